@@ -25,8 +25,13 @@ var BoundaryLens = func() []int {
 func Bytes(r *rand.Rand, n int) []byte {
 	b := make([]byte, n)
 	mode := r.IntN(4)
+	if n > 255 && r.IntN(5) == 0 {
+		mode = 4 // period 255: every option instance of the value carries the same octets
+	}
 	for i := range b {
 		switch mode {
+		case 4:
+			b[i] = byte(i%255*7 + 1)
 		case 0:
 			b[i] = byte(r.UintN(256))
 		case 1:
@@ -187,6 +192,9 @@ func Packet(r *rand.Rand, maxOpts int) (*dhcpv4.DHCPv4, *ref4.P4) {
 		if l == 0 && r.IntN(2) == 0 {
 			v = nil
 		}
+		if code == 82 && l > 2 && r.IntN(2) == 0 {
+			v = AgentInfo(r, l)
+		}
 		p.Options[code] = v
 		e.Opts[code] = append([]byte{}, v...)
 	}
@@ -202,4 +210,33 @@ func Packet(r *rand.Rand, maxOpts int) (*dhcpv4.DHCPv4, *ref4.P4) {
 		}
 	}
 	return p, e
+}
+
+// AgentInfo builds a relay-agent-information value of exactly n octets (n >= 2) that is a well-formed run of
+// sub-options: small ones, and now and then one with a payload of 254 or 255 octets (the largest a sub-option can
+// carry) when there is room.
+func AgentInfo(r *rand.Rand, n int) []byte {
+	var v []byte
+	for len(v) < n {
+		rest := n - len(v)
+		if rest == 1 { // cannot hold a sub-option header: grow the previous payload by one octet if possible
+			return append(v, 0)[:n] // (an all-zero tail octet: still exactly n octets; sub-option code 0 without length)
+		}
+		l := r.IntN(min(20, rest-1))
+		if rest-2 >= 254 && r.IntN(4) == 0 {
+			l = 254 + r.IntN(min(2, rest-2-253))
+		}
+		if rest-2-l == 1 {
+			l++
+			if l > 255 || 2+l > rest {
+				l -= 2
+			}
+		}
+		l = max(0, min(l, rest-2, 255))
+		v = append(v, byte(1+r.UintN(12)), byte(l))
+		for i := 0; i < l; i++ {
+			v = append(v, byte('a'+r.UintN(26)))
+		}
+	}
+	return v[:n]
 }
